@@ -3,7 +3,9 @@ package main
 import (
 	"context"
 	"io"
+	"strings"
 	"sync"
+	"time"
 
 	"github.com/tonistiigi/fsutil"
 	"github.com/tonistiigi/fsutil/types"
@@ -34,15 +36,46 @@ type tapEvent struct {
 }
 
 type Tap struct {
-	mu sync.Mutex
-	ev []tapEvent
+	mu   sync.Mutex
+	ev   []tapEvent
+	last time.Time // when the latest event was recorded
 }
 
 func (t *Tap) add(e tapEvent) int {
 	t.mu.Lock()
 	defer t.mu.Unlock()
 	t.ev = append(t.ev, e)
+	t.last = time.Now()
 	return len(t.ev) - 1
+}
+
+// Idle: how long nothing has crossed the boundary (since start when nothing has yet).
+func (t *Tap) Idle(start time.Time) time.Duration {
+	t.mu.Lock()
+	defer t.mu.Unlock()
+	if t.last.IsZero() {
+		return time.Since(start)
+	}
+	return time.Since(t.last)
+}
+
+// c0607Await waits for the real call to return.  It gives up (false) when the call has
+// been running for c0607Watchdog, or when nothing at all has crossed its boundary for
+// c0607IdleWatchdog: a deadlocked endpoint is silent, a slow one (loaded machine) is not.
+func c0607Await(done <-chan struct{}, tap *Tap) bool {
+	start := time.Now()
+	tick := time.NewTicker(50 * time.Millisecond)
+	defer tick.Stop()
+	for {
+		select {
+		case <-done:
+			return true
+		case <-tick.C:
+			if time.Since(start) > c0607Watchdog || tap.Idle(start) > c0607IdleWatchdog {
+				return false
+			}
+		}
+	}
 }
 
 func (t *Tap) drop(i int) {
@@ -60,9 +93,31 @@ func (t *Tap) Events() []tapEvent {
 	return append([]tapEvent{}, t.ev...)
 }
 
+// CloneVT copies string HEADERS; the strings of a packet decoded without copying are views
+// into the transport's receive buffer and would change under the tap as well.  The tap keeps
+// its own bytes, so that the trace shows what crossed the boundary at that moment.
+func c0607DeepClone(p *types.Packet) *types.Packet {
+	q := p.CloneVT()
+	if q.Stat != nil {
+		q.Stat.Path = strings.Clone(q.Stat.Path)
+		q.Stat.Linkname = strings.Clone(q.Stat.Linkname)
+		if q.Stat.Xattrs != nil {
+			xs := make(map[string][]byte, len(q.Stat.Xattrs))
+			for k, v := range q.Stat.Xattrs {
+				xs[strings.Clone(k)] = append([]byte{}, v...)
+			}
+			q.Stat.Xattrs = xs
+		}
+	}
+	return q
+}
+
 type tapStream struct {
 	inner fsutil.Stream
 	tap   *Tap
+	// the inner endpoint reports each decoded packet itself (c0607BufEndpoint.OnDecoded: at the
+	// moment Unmarshal has returned, before the transport reuses its receive buffer)
+	innerRecordsIn bool
 }
 
 var _ fsutil.Stream = &tapStream{}
@@ -74,7 +129,7 @@ func (s *tapStream) SendMsg(m interface{}) error {
 	if !ok {
 		return s.inner.SendMsg(m)
 	}
-	i := s.tap.add(tapEvent{kind: 0, pkt: p.CloneVT()})
+	i := s.tap.add(tapEvent{kind: 0, pkt: c0607DeepClone(p)})
 	err := s.inner.SendMsg(m)
 	if err != nil {
 		s.tap.drop(i)
@@ -87,8 +142,8 @@ func (s *tapStream) RecvMsg(m interface{}) error {
 	err := s.inner.RecvMsg(m)
 	switch {
 	case err == nil:
-		if p, ok := m.(*types.Packet); ok {
-			s.tap.add(tapEvent{kind: 1, pkt: p.CloneVT()})
+		if p, ok := m.(*types.Packet); ok && !s.innerRecordsIn {
+			s.tap.add(tapEvent{kind: 1, pkt: c0607DeepClone(p)})
 		}
 	case err == io.EOF:
 		s.tap.add(tapEvent{kind: 2})
